@@ -7,6 +7,7 @@ open RedunModel RedunModel.Context
      deep ctx ctx                   → the specification deepMerge
      get ctx s<hex path> ctx        → get_context_value(ctx, path, default)
      update ctx ctx ctx             → merge_dicts([prev, context, kwargs])   (Task.update_context)
+     chain (P ctx ctx)*             → the _context_override after update_context(c1, **k1) … update_context(cn, **kn)
      jobctx ctx ctx (L ctx*)        → Job.get_context: config context, run context, overrides self … root
      jobget ctx ctx (L ctx*) s<hex path> ctx
    reply: ctx -/
@@ -32,6 +33,15 @@ partial def toCtxs : List Sexp → Option (List Ctx)
     let r ← toCtxs t
     pure (c :: r)
 
+partial def toSteps : List Sexp → Option (List (Ctx × Ctx))
+  | [] => some []
+  | .list [.atom "P", c, k] :: t => do
+    let c' ← toCtx c
+    let k' ← toCtx k
+    let r ← toSteps t
+    pure ((c', k') :: r)
+  | _ => none
+
 partial def render : Ctx → String
   | .leaf v => atomOfStr v
   | .obj kvs => "(O" ++ String.join (kvs.map fun (k, v) => " (" ++ atomOfStr k ++ " " ++ render v ++ ")") ++ ")"
@@ -54,6 +64,10 @@ def answer (line : String) : String :=
     match toCtx p, toCtx c, toCtx k with
     | some p, some c, some k => render (updateContext p c k)
     | _, _, _ => "bad-value"
+  | some (.atom "chain" :: steps) =>
+    match toSteps steps with
+    | some st => render (overrideOfChain st)
+    | none => "bad-value"
   | some [.atom "jobctx", cfg, run, .list (.atom "L" :: chain)] =>
     match toCtx cfg, toCtx run, toCtxs chain with
     | some cfg, some run, some chain => render (jobContext (execContext cfg run) chain)
